@@ -172,7 +172,8 @@ Inductive out :=
 | OResp (r : resp)
 | ODown (w : wid) (m : dmsg)
 | OUp (w : wid) (m : umsg)
-| ONewWorker (w : wid).
+| ONewWorker (w : wid)
+| OPrune (jobs workers : list N).   (* the prune request handed to the journal: live jobs, live workers *)
 
 Record sys := mkSys {
   s_core : core;
